@@ -251,6 +251,20 @@ def runC07 : P Verdict := do
           let scale := maxAbs ws
           -- samples whose sources all lie inside the observed window
           let mut fail : Option String := none
+          -- the two auxiliary runs must themselves be what the law says: low-pass δ passes the pulses only
+          -- (zeros and sqrt(T0) impulses, delayed by the centre), low-pass 0 passes the noise only
+          let mut zerosInNoise := 0; let mut voicedSamples := 0
+          for n in [0:total] do
+            if n + ctr < total && periods[n / fp]! != 0.0 then
+              voicedSamples := voicedSamples + 1
+              if yz[n + ctr]! == 0.0 then zerosInNoise := zerosInNoise + 1
+              let pv := yd[n + ctr]!
+              let prev := if n / fp == 0 then 0.0 else periods[n / fp - 1]!
+              let steady := prev == periods[n / fp]!
+              if fail.isNone && steady && pv != 0.0 && !(closeF 1e-9 1e-300 pv (Float.sqrt periods[n / fp]!)) then
+                fail := some s!"low-pass δ: sample {n + ctr} is {pv}, neither 0 nor sqrt(T0) = {Float.sqrt periods[n / fp]!}"
+          if fail.isNone && voicedSamples ≥ 100 && zerosInNoise * 2 > voicedSamples then
+            fail := some s!"low-pass 0 in voiced frames must leave the noise: {zerosInNoise} of {voicedSamples} samples are exactly zero"
           for mIdx in [0:total - L] do
             if fail.isNone && !(closeF 1e-9 scale pred[mIdx]! y[mIdx]!) then
               fail := some s!"sample {mIdx}: {y[mIdx]!} but h*pulses + (δ-h)*noise gives {pred[mIdx]!}"
